@@ -267,8 +267,12 @@ fn lifecycle_case(seed: u64, case: u64) -> Out {
         "read-only database over clean and unclean files",
     ][scenario as usize];
     be.lock().name = name.into();
+    // in a third of the cases the backend's close() itself reports an error: it must still be the
+    // last call the backend sees, and the only close
+    let failing_close = scenario != 3 && scenario != 5 && rng.chance(1, 3);
     let r = guarded(|| -> Result<String, String> {
         let db = cfg.builder().create_with_backend(be.clone()).map_err(|e| e.to_string())?;
+        be.lock().fail_close = failing_close;
         let fill = |db: &Database, n: u64, rng: &mut Rng| -> Result<(), String> {
             let txn = db.begin_write().map_err(|e| e.to_string())?;
             {
@@ -435,10 +439,10 @@ fn lifecycle_case(seed: u64, case: u64) -> Out {
     }
     Out {
         class: "life-cycle",
-        detail: format!("{name}: {detail}"),
+        detail: format!("{name}{}: {detail}", if failing_close { " [close() reports an error]" } else { "" }),
         calls: be.lock().calls,
         violation,
-        sig: mix(scenario, crate::rng::hash_bytes(case, detail.as_bytes())),
+        sig: mix(scenario * 2 + u64::from(failing_close), crate::rng::hash_bytes(case, detail.as_bytes())),
     }
 }
 
